@@ -27,7 +27,7 @@ var defects = []string{"import-cycle", "import-self", "include-cycle", "typedef-
 	"grouping-cycle-direct", "grouping-cycle-nested", "grouping-cycle-unused", "grouping-cycle-via-choice", "identity-cycle", "identity-self", "feature-cycle", "feature-self",
 	"dangling-import", "dangling-include", "dangling-type", "dangling-uses", "dangling-base", "dangling-if-feature", "dangling-prefix", "belongs-to-missing",
 	"typedef-cycle-cross-scope", "grouping-cycle-long", "grouping-cycle-via-uses-augment", "grouping-cycle-via-uses-augment-nested",
-	"feature-cycle-second", "dangling-if-feature-second"}
+	"feature-cycle-second", "dangling-if-feature-second", "dangling-include-foreign", "dangling-include-foreign-nested"}
 
 func str(s string) *sg.TypeSpec { return &sg.TypeSpec{Name: s} }
 
@@ -166,8 +166,8 @@ func inject(mods []*sg.Mod, d string, pick func(n int) int) {
 		host.Nodes[0].Kids = append(host.Nodes[0].Kids, &sg.Node{Kind: "leaf", Name: "dang-leaf", Type: str("string"), IfFeatures: []string{"no-such-feature"}})
 	case "dangling-prefix":
 		host.Nodes[0].Kids = append(host.Nodes[0].Kids, &sg.Node{Kind: "leaf", Name: "dang-leaf", Type: str("nopfx:sometype")})
-	case "belongs-to-missing":
-		// handled by the caller (extra submodule)
+	case "belongs-to-missing", "dangling-include-foreign", "dangling-include-foreign-nested":
+		// handled by the caller (extra submodules)
 	}
 }
 
@@ -188,6 +188,24 @@ func extraMods(c Case) []*sg.Mod {
 			&sg.Mod{Name: "sb", Prefix: "own", BelongsTo: owner, Includes: []string{"sa"}})
 	case "belongs-to-missing":
 		return append(append([]*sg.Mod(nil), mods...), &sg.Mod{Name: "orphan", Prefix: "own", BelongsTo: "no-such-module"})
+	case "dangling-include-foreign", "dangling-include-foreign-nested":
+		// an include that names a submodule which exists in the set but belongs to another module: written in the module
+		// itself, or in one of its submodules
+		out := sg.Clone(mods)
+		var a *sg.Mod
+		for _, m := range out {
+			if m.BelongsTo == "" && a == nil {
+				a = m
+			}
+		}
+		other := &sg.Mod{Name: "zother", Prefix: "zo", Includes: []string{"zother-sub"}, Nodes: []*sg.Node{{Kind: "container", Name: "zother-top"}}}
+		osub := &sg.Mod{Name: "zother-sub", Prefix: "zo", BelongsTo: "zother", Typedefs: []*sg.Typedef{{Name: "zt", Type: str("string")}}}
+		if c.Defect == "dangling-include-foreign" {
+			a.Includes = append(a.Includes, "zother-sub")
+			return append(out, other, osub)
+		}
+		a.Includes = append(a.Includes, "sa")
+		return append(out, other, osub, &sg.Mod{Name: "sa", Prefix: a.Prefix, BelongsTo: a.Name, Includes: []string{"zother-sub"}})
 	}
 	return mods
 }
